@@ -1803,6 +1803,11 @@ class Executor(object):
                     return z3.BoolVal(False)
                 return z3.And(z3.Not(n), coll.member(inner.term))
             return coll.member(x.term)
+        if isinstance(coll, VObj) and self.mode != 'spec':
+            # `x in obj` is obj.__contains__(x): through its contract (or its body, executed in place)
+            c = dsl.CONTRACTS.get('%s.__contains__' % coll.cls)
+            if c is not None:
+                return truth(self.world.call_method(self, coll, '__contains__', [x], {}, getattr(self, 'cur_node', None)))
         r = self.world.contains(self, coll, x)
         if r is NotImplemented:
             raise Unsupported('`in` on %r' % (coll,))
